@@ -51,4 +51,5 @@ def jobs(tier, seed):
     for L in range(1, topv + 1, 4 if tier == 'quick' else 3):
         J.append(product_job(P, f'name-L{L}', G, sc('headers', L, prefix=b'', suffix=b': v\r\n\r\n', cap=1, fixed={i: NOCOLON for i in range(L)}),
                              60 if tier == 'quick' else 300, f'{L} symbolic name bytes (any value but ":") + ": v" CRLFCRLF', family='name', mandatory=(L <= 16)))
+    J += sliding_families(P, G, tier, default_flags=True, step=T(tier, 2, 1))
     return J
